@@ -84,6 +84,23 @@ def gen(seed, tier):
             o["l"] = n % 3
             cases.append(("C14-%d" % n, "C", opts_str(o), seg(0, lines)))
             n += 1
+    # a letter given more than once (inside one -i value or across several -i options) still selects its group once
+    dups = ["ww", "aa", "AA", "ee", "ss", "a+a", "wa+ws", "aAews+e", "e+e+e", "sAs", "wew", "A+A+s", "aAews+aAews", "xx"]
+    for k, flags in enumerate(dups if tier == "quick" else dups * 4):
+        pool = r.sample(ICAOS, r.randint(1, 3))
+        lines = []
+        for icao in pool:
+            lines += full_aircraft(g, icao, 0.9)
+        o = {"i": flags, "u": -1, "o": "x"}
+        if k % 2:
+            o["R"] = 1
+        cases.append(("C14-dup%d" % k, "C", opts_str(o), seg(0, lines)))
+    # no usable observer position (-O that does not parse): the distance cell stays blank also for a row with a position
+    for k, obsv in enumerate(["nowhere", "x;y", "52.1", ""]):
+        icao = r.choice(ICAOS)
+        lines = [g.f_df17(icao, g.me_ident())] + pair_frames(g, icao, r.uniform(-60, 60), r.uniform(-150, 150)) + [g.f_df11(icao)]
+        cases.append(("C14-noobs%d!nomodel" % k, "C", opts_str({"i": r.choice(["aAews", "x", "s"]), "u": -1, "o": "x", "O": obsv.encode().hex().upper() or "20"}),
+                      seg(0, lines)))
     # rows at every AGE: the history is replayed with a simulated clock (kind D) and every row is observed as the table line
     # the program prints at that moment -- last-contact column, the hex age digits of position / track / heading (PTH),
     # rows that have not been heard for seconds, minutes, hours
@@ -127,6 +144,21 @@ def gen(seed, tier):
     return cases
 
 
+
+def overflow_excess(line, cols):
+    """number of characters by which numeric values that do not fit their columns (the case the property excludes, e.g. an
+    indicated air speed of 1005 kt in a three-character column) widen the row: a right-aligned number that is too long
+    pushes everything after it to the right, so its column is followed by a digit instead of a blank or a source mark"""
+    off = 0
+    for name, (st, w) in sorted(cols.items(), key=lambda x: x[1][0]):
+        if name in ("ICAO", "RG", "W", "CALLSIGN", "S", "SQWK"):
+            continue
+        while st + off + w < len(line) and line[st + off + w].isascii() and line[st + off + w].isdigit() \
+                and not line[st + off].isspace() and line[st + off:st + off + w].lstrip("-").replace(".", "").isdigit():
+            off += 1
+    return off
+
+
 def oracle(parts, outcome, obs):
     if parts[1] == "D":
         if outcome.replace("+slow", "") != "ok":
@@ -139,7 +171,7 @@ def oracle(parts, outcome, obs):
                 line = row.get("disp", "").replace("_", " ")
                 lc = line.rsplit(" ", 1)[-1]
                 over = max(0, len(lc) - 2)          # a last-contact age of 100 s or more does not fit its column
-                if len(line) != width + over and not ("ICAO" in line[7:12]):
+                if len(line) != width + over and not ("ICAO" in line[7:12]) and len(line) != width + over + overflow_excess(line, cols):
                     return "segment %d: row of %06X has width %d, the header has %d: %r" % (k, a, len(line), width, line)
         return None
     if outcome != "ok":
@@ -166,6 +198,8 @@ def oracle(parts, outcome, obs):
                 # a value that does not fit is the excluded case: LC >= 100 s or 5-letter country codes
                 if cell(line, cols, "RG").strip() in ("IC",) or "ICAO" in line[7:12]:
                     continue
+                if len(line) == len(fr[0]) + overflow_excess(line, cols) + max(0, len(line.rsplit(" ", 1)[-1]) - 2):
+                    continue
                 return "frame %d row width %d, header width %d: %r" % (k, len(line), len(fr[0]), line)
             # every column: numbers right-aligned, text left-aligned; blanks stay blanks
             for name in ("SQWK", "ALT B", "VRATE", "TRK", "HDG", "GSP", "LATITUDE", "LONGITUDE", "LC"):
@@ -178,6 +212,8 @@ def oracle(parts, outcome, obs):
                 st, w = cols[name]
                 if st + w < len(line) and not line[st:st + w].strip() and line[st + w] != " ":
                     return "frame %d column %s is blank but carries the mark %r" % (k, name, line[st + w])
+            if parts[0].startswith("C14-noobs") and cell(line, cols, "DIST").strip():
+                return "frame %d: no observer position was given (-O does not parse) but the distance cell reads %r" % (k, cell(line, cols, "DIST"))
             c = cell(line, cols, "CALLSIGN")
             if c.strip() and c[0] == " ":
                 return "frame %d callsign not left-aligned: %r" % (k, c)
@@ -193,3 +229,8 @@ CLAIM = {
     "note": "That each cell shows the field its header names is by construction of the cell list (which is what the theorem speaks about) plus the character-for-character correspondence with CLI output; character display width is taken as 1.",
     "technique": "Coq proof on the rendering model (cell-width lemmas, 32 flag sets) over the regenerated header table; CLI differential rendering + layout oracle",
 }
+
+
+def skip_case(parts, impl, model):
+    """C14-noobs: an -O value that does not parse is outside the model's option parser (plain decimals); oracle only"""
+    return parts[0].split("~")[0].endswith("!nomodel")
